@@ -227,6 +227,15 @@ where
         pc.h_base = &pc.h_base * c;
         pc.h_base_compressed = pc.h_base.compress();
     }
+    if let Some(arr) = spec["gb_scale"].as_array() {
+        // a different blinding generator: Gb_k' = c * Gb_k
+        let k = arr[0].as_u64().unwrap() as usize;
+        let c = sc_unhex(arr[1].as_str().unwrap());
+        if k < pc.g_base_vec.len() {
+            pc.g_base_vec[k] = &pc.g_base_vec[k] * c;
+            pc.g_base_compressed_vec[k] = pc.g_base_vec[k].compress();
+        }
+    }
     if let Some(c) = spec["gb0_eq_cH"].as_str() {
         // degenerate Pedersen generators: Gb_0 = c * H (two openings can then share one commitment)
         let c = sc_unhex(c);
